@@ -158,6 +158,38 @@ func (r *run) callStatic(fr *frame, st *State, callee *ssa.Function, args, bindi
 	}
 	if ct != nil && !ct.Inline {
 		ct.Used = true
+		// a contracted closure called from its parent: the contract names captured variables,
+		// which are bound to the current contents of the captured cells. A closure that stores
+		// into a captured variable cannot be summarised this way.
+		if len(callee.FreeVars) > 0 && len(bindings) == len(callee.FreeVars) {
+			caps := map[string]SVal{}
+			for i, fv := range callee.FreeVars {
+				b := bindings[i]
+				if b.Loc != nil {
+					v := r.load(st, b.Loc, reach)
+					if v.Loc == nil && v.Tup == nil && v.Fn == nil {
+						caps[fv.Name()] = SVal{Term: v.Term, Sort: v.Sort, Type: v.Type}
+					}
+				} else if b.Term != "" {
+					if _, isPtr := fv.Type().Underlying().(*types.Pointer); !isPtr {
+						caps[fv.Name()] = SVal{Term: b.Term, Sort: b.Sort, Type: b.Type}
+					} else {
+						// an escaping variable lives in a heap cell: read through the pointer
+						l := r.asLoc(fr, st, b, fv, "false", fv.Pos())
+						v := r.load(st, l, "false")
+						if v.Loc == nil && v.Tup == nil && v.Fn == nil {
+							caps[fv.Name()] = SVal{Term: v.Term, Sort: v.Sort, Type: v.Type}
+						}
+					}
+				}
+				for _, ref := range *fv.Referrers() {
+					if sto, ok := ref.(*ssa.Store); ok && sto.Addr == fv {
+						r.unsupported("contracted closure %s stores into captured variable %s", key, fv.Name())
+					}
+				}
+			}
+			r.pendingCaps = caps
+		}
 		return r.applyContract(fr, st, ct, callee.Signature, callee, args, reach, pos, key)
 	}
 	if r.canInline(callee) {
@@ -340,6 +372,10 @@ func (r *run) applyContract(fr *frame, st *State, ct *Contract, sig *types.Signa
 			}
 		}
 	}
+	for n, v := range r.pendingCaps {
+		env.extra[n] = v
+	}
+	r.pendingCaps = nil
 	names := ct.ParamNames
 	if len(names) != len(args) {
 		r.unsupported("contract %s binds %d parameters, call has %d", ct.Key, len(names), len(args))
@@ -960,15 +996,26 @@ func (r *run) frameCall(fr *frame, st *State, ct *Contract, env *specEnv, cname,
 	if top.contract == nil || !top.contract.AssignsSet || len(ct.Assigns) == 0 {
 		return
 	}
+	star := false
 	for _, a := range top.contract.Assigns {
 		if a == "*" {
-			return
+			star = true
 		}
 	}
 	for _, a := range ct.Assigns {
 		cond := "false"
+		if star && !strings.HasPrefix(a, "ghost:") {
+			continue
+		}
 		switch {
 		case a == "*":
+		case strings.HasPrefix(a, "ghost:"):
+			// ghost state: inside the caller's frame only if the caller names it too
+			for _, ra := range top.contract.Assigns {
+				if ra == a {
+					cond = "true"
+				}
+			}
 		case strings.HasPrefix(a, "map:"):
 			ex, err := ParseSpec(strings.TrimPrefix(a, "map:"))
 			if err != nil {
